@@ -100,3 +100,27 @@ Lemma f22_before_fix :
   ~ Forall (rect_in_screen 80 70)
            (pl_region (plan_regions_old caps_init (mkSends false false false false false false) (f22_snap 83))).
 Proof. destruct f22_witness as (_ & A & B & _). split; [exact B|exact A]. Qed.
+
+(* ---- F26: rfbScheduleCopyRegion (soft-cursor branch) ORs the cursor rectangle into modifiedRegion without looking at
+   its size; with a cursor of height 0 that is a rectangle of height 0.  The snapshot below is the one observed on
+   the implementation (corpus/C03/F26_zero_height_cursor_copy.script): modifiedRegion "not empty" but without a
+   pixel.  The update flow then announces 8 rectangles and sends 4, two of them with height 0.  (snap_ok, the
+   hypothesis of the count theorem, fails: modifiedRegion is not well-formed.) *)
+Definition f26_cfg : cfg := mkCfg false false false false true true true true.
+Definition f26_caps : caps := fst (set_encodings f26_cfg caps_init [enc_Raw; enc_CopyRect]).
+Definition f26_snap : snap :=
+  mkSnap (region_of_rects [(3, 2, 4, 2); (2, 2, 3, 2)]) (rgn_create_rect 0 0 8 4) (rgn_create_rect 1 0 7 4) 1 0 2 2 2 2
+         (Some (mkCursor 0 0 1 0 false)) 0 8 4 50 48 48 1 32 0 0.
+
+Lemma f26_witness :
+  rgn_is_empty (sn_mod f26_snap) = false /\
+  (forall x y, rgn_mem (sn_mod f26_snap) x y = false) /\
+  exists hs, snd (model_update f26_cfg f26_caps f26_snap) = USent 8 hs false false /\
+             phdr_count hs = Some 4 /\
+             hs = [PH (1, 0, 6, 2, enc_CopyRect); PH (4, 2, 3, 0, enc_CopyRect); PH (1, 2, 2, 0, enc_CopyRect); PH (1, 2, 6, 2, enc_CopyRect)].
+Proof.
+  split; [reflexivity|]. split.
+  - intros x y. change (sn_mod f26_snap) with [(2, 2, [(3, 4, tt); (2, 3, tt)])].
+    unfold rgn_mem. cbn [lookup]. destruct ((2 <=? y) && (y <? 2)) eqn:E; [lia|reflexivity].
+  - eexists. split; [vm_compute; reflexivity|]. split; reflexivity.
+Qed.
